@@ -967,6 +967,10 @@ spif_dlinked_list_reverse(spif_dlinked_list_t self)
     spif_dlinked_list_item_t current, tmp;
 
     ASSERT_RVAL(!SPIF_LIST_ISNULL(self), FALSE);
+    /* (An empty list stays empty.) */
+    tmp = (spif_dlinked_list_item_t) NULL;
+    /* The old head is the new tail. */
+    self->tail = self->head;
     for (current = self->head; current; ) {
         tmp = current;
         current = current->next;
